@@ -396,7 +396,12 @@ fn job_scan(job: &Value, leaf_cache: &LeafCache) -> Value {
     let (scanner, class, msg) = if simple {
         // ScannerBuilder::add_patterns: one mode, token type = index of the pattern
         let pats: Vec<String> = modes_json[0]["patterns"].as_array().unwrap().iter().map(|p| p["p"].as_str().unwrap().to_string()).collect();
-        match catch_unwind(AssertUnwindSafe(|| ScannerBuilder::new().add_patterns(pats).build())) {
+        // documented: "all previously added scanner modes will be ignored after calling this method"
+        let pre: Vec<ScannerMode> = match job.get("simple_pre") {
+            Some(pm) => catch_unwind(AssertUnwindSafe(|| modes_from_json(pm))).unwrap_or_default(),
+            None => Vec::new(),
+        };
+        match catch_unwind(AssertUnwindSafe(|| ScannerBuilder::new().add_scanner_modes(&pre).add_patterns(pats).build())) {
             Ok(Ok(s)) => (Some(s), "ok", String::new()),
             Ok(Err(e)) => (None, error_class(&e), e.to_string()),
             Err(p) => (None, "panic", panic_message(p)),
